@@ -463,6 +463,101 @@ func runC15(r *Run) {
 		r.atLeast("session methods that wipe the data", n, 1)
 	})
 
+	r.rule("R13", "what the storage answered for an id is a miss or is decoded: getSession and GetByID treat a nil answer as `no such session` (a new id is issued); every other answer is decoded before the session is handed out under the client's id — the test in front of decodeSessionData is the same nil test, not a length test: a storage that answers a missing key with an empty non-nil slice would otherwise make the store adopt a forged or destroyed id without decoding anything (session fixation, destroyed ids revived) (E1 with the nil edges of the answer removed)", func() {
+		n := 0
+		for _, fn := range []string{"(*Store).getSession", "(*Store).GetByID"} {
+			f := r.Fn(sessPkg, fn)
+			var raw ssa.Value
+			isStorageGet := func(c callSite) bool {
+				return c.Common.IsInvoke() && c.Common.Method.Name() == "Get" && strings.HasSuffix(c.Common.Value.Type().String(), "Storage")
+			}
+			var own []callSite
+			withoutHelpers(func() { own = callsIn(f, false) })
+			for _, c := range own {
+				cv := c.Value()
+				if cv == nil || cv.Referrers() == nil {
+					continue
+				}
+				want := -1
+				if isStorageGet(c) {
+					want = 0
+				} else if h := c.Common.StaticCallee(); h != nil && h.Pkg == f.Pkg && len(h.Blocks) > 0 {
+					// the lookup in a helper of the package that hands the storage's answer back among its results
+					calls := false
+					withoutHelpers(func() {
+						for _, hc := range callsIn(h, false) {
+							if isStorageGet(hc) {
+								calls = true
+							}
+						}
+					})
+					if calls {
+						res := h.Signature.Results()
+						for k := 0; k < res.Len(); k++ {
+							if sl, ok := res.At(k).Type().Underlying().(*types.Slice); ok {
+								if bt, ok := sl.Elem().Underlying().(*types.Basic); ok && bt.Kind() == types.Byte {
+									want = k
+								}
+							}
+						}
+					}
+				}
+				if want < 0 {
+					continue
+				}
+				for _, u := range *cv.Referrers() {
+					if e, ok := u.(*ssa.Extract); ok && e.Index == want {
+						raw = e
+					}
+				}
+			}
+			if raw == nil {
+				r.bad(fn+":answer-decoded-or-miss", r.fpos(f), "no Storage.Get whose answer could be followed: not the shape the rule reads")
+				continue
+			}
+			n++
+			isRawish := func(v ssa.Value) bool {
+				return allSourcesAre(v, func(x ssa.Value) bool {
+					if x == raw {
+						return true
+					}
+					c := asConst(x)
+					return c != nil && constIsNil(c)
+				})
+			}
+			cut := map[edge]bool{}
+			for _, br := range branchesIn(f) {
+				if br.Info.Root == nil || !isRawish(br.Info.Root) {
+					continue
+				}
+				if sl, ok := br.nilSlot(true); ok {
+					cut[edge{br.If.Block(), sl}] = true
+				}
+			}
+			isDecode := func(in ssa.Instruction) bool {
+				return isCallTo(in, nameHasSuffix("session.Session).decodeSessionData"))
+			}
+			hands := func(in ssa.Instruction) bool {
+				ret, ok := in.(*ssa.Return)
+				if !ok || len(ret.Results) == 0 {
+					return false
+				}
+				c := asConst(ret.Results[0])
+				return !(c != nil && constIsNil(c))
+			}
+			var start ssa.Instruction
+			if ri, ok := raw.(ssa.Instruction); ok {
+				start = ri
+			}
+			var path []*ssa.BasicBlock
+			var hit ssa.Instruction
+			withoutHelpers(func() { path, hit = reach(pointAfter(start), hands, cut, isDecode) })
+			r.check(len(cut) >= 1 && hit == nil, fn+":answer-decoded-or-miss", r.fpos(f), "with the nil edges removed every path to a handed-out session decodes the answer",
+				"a session can be handed out under the client's id although the storage's non-nil answer was not decoded ("+pathString(r.P, path)+"): the decode is guarded by something else than the nil test that decides `miss` — an empty non-nil answer (a storage that copies with append([]byte{}, v...)) keeps the forged id, Save then persists data under it")
+		}
+		r.atLeast("lookups of a session by id", n, 2)
+	})
+
 	r.rule("R12", "a session goes back to the pool once: on no path through a function of the package is Release called twice on the same session value, counting a deferred Release together with the plain calls after it — the pool would hand the same object to the next two requests, whose data and ids then mix (E2 pairing: at most one release per acquisition)", func() {
 		nRel := 0
 		type fnd struct{ fn, pos, detail string }
